@@ -701,6 +701,12 @@ func (e *Explorer) done(r pathResult) {
 	}
 	switch r.kind {
 	case "fail":
+		if fl := os.Getenv("GOSYM_FAILLOG"); fl != "" {
+			if f, err := os.OpenFile(fl, os.O_APPEND|os.O_CREATE|os.O_WRONLY, 0644); err == nil {
+				fmt.Fprintf(f, "%s known=%q %s | %v | %v\n", e.h.ID, r.fail.Known, r.fail.Msg, renderInputs(r.fail.Inputs), r.notes)
+				f.Close()
+			}
+		}
 		key := r.fail.Msg + "|" + r.fail.Where + "|" + r.fail.Known
 		res.failSeen[key]++
 		if res.failSeen[key] <= 3 {
